@@ -69,7 +69,9 @@ func (o *OperatorPartition) ExclusivelyOwnsTable(uri string, startKey []byte, en
 		}
 	}
 
-	return !neighborNeedsTable, err
+	// A neighbor that could not be asked may still need the table: only claim
+	// exclusive ownership when every neighbor answered.
+	return !neighborNeedsTable && err == nil, err
 }
 
 var _ kv.DataOwnership = &OperatorPartition{}
